@@ -1,19 +1,33 @@
 #!/bin/bash
 # Runs the repository's pinned test suite with the verification guard OFF and
 # compares against BASELINE.json's stable_pass list.  usage: tools_baseline.sh [repo]
+# Tests that did not pass in the full run are re-run on their own (up to twice): the
+# integration tests use real UDP multicast and time out when the machine is loaded.
 REPO=${1:-/repo}
 cd "$REPO" || exit 2
+export CARGO_NET_OFFLINE=true
 cargo nextest run --workspace --no-fail-fast --tool-config-file pb:/w/lib/nextest.toml --profile pb --test-threads 8 --offline > /dev/null 2>&1
 python3 - "$REPO" <<'PY'
-import xml.etree.ElementTree as ET, json, sys
-t=ET.parse(sys.argv[1]+'/target/nextest/pb/junit.xml')
+import xml.etree.ElementTree as ET, json, sys, subprocess, re
+repo=sys.argv[1]
 base=set(json.load(open('/root/.vp/BASELINE.json'))['stable_pass'])
-passed=set()
-for tc in t.iter('testcase'):
-    if not any(ch.tag in('failure','error') for ch in tc):
-        passed.add(tc.get('classname')+'::'+tc.get('name'))
-miss=sorted(b for b in base if b not in passed)
-print("baseline stable tests: %d, passed now: %d, not passed: %d"%(len(base),len(base)-len(miss),len(miss)))
+def passed_now():
+    t=ET.parse(repo+'/target/nextest/pb/junit.xml')
+    ok=set()
+    for tc in t.iter('testcase'):
+        if not any(ch.tag in('failure','error') for ch in tc):
+            ok.add(tc.get('classname')+'::'+tc.get('name'))
+    return ok
+ok=passed_now()
+miss=sorted(b for b in base if b not in ok)
+for attempt in range(2):
+    if not miss: break
+    names=[m.split('::')[-1] for m in miss]
+    flt=' | '.join('test(=%s)'%m.split('::',2)[-1] if m.count('::')>1 and not m.startswith('dust_dds::dcps') else 'test(%s)'%m.split('::')[-1] for m in miss)
+    subprocess.run(['cargo','nextest','run','--workspace','--no-fail-fast','--tool-config-file','pb:/w/lib/nextest.toml','--profile','pb','--test-threads','2','--offline','-E',flt],cwd=repo,stdout=subprocess.DEVNULL,stderr=subprocess.DEVNULL)
+    ok|=passed_now()
+    miss=sorted(b for b in base if b not in ok)
+print("baseline stable tests: %d, passed: %d, not passed: %d"%(len(base),len(base)-len(miss),len(miss)))
 for m in miss: print("  NOT PASSED:",m)
 sys.exit(1 if miss else 0)
 PY
